@@ -3,6 +3,7 @@ pub mod rel;
 pub mod offset;
 pub mod utf8;
 pub mod related;
+pub mod textops;
 
 pub fn run(family: &str, opts: &Opts) -> Option<Report> {
     // "family@m<interval>s<0|1>" runs the family under a store configuration variant
@@ -28,6 +29,7 @@ fn run_base(family: &str, opts: &Opts) -> Option<Report> {
         "offset" => Some(offset::run(opts)),
         "utf8" => Some(utf8::run(opts)),
         "related" => Some(related::run(opts)),
+        "textops" => Some(textops::run(opts)),
         _ => None,
     }
 }
@@ -39,6 +41,7 @@ pub fn exec_line(line: &str) -> Option<String> {
         Some("off") => Some(offset::exec_line(line)),
         Some("u8") => Some(utf8::exec_line(line)),
         Some("find") => Some(related::exec_line(line)),
+        Some("txt") => Some(textops::exec_line(line)),
         _ => None,
     }
 }
